@@ -121,6 +121,37 @@ def restore_renames(raw, known):
         others = [m2 for m2 in missing if m2 != q and known[m2].get('sig') == k.get('sig') and known[m2].get('impl_self') == k.get('impl_self') and m2.rsplit('::', 1)[0] == q.rsplit('::', 1)[0]]
         if len(cands) == 1 and not others:
             pairs.append((cands[0]['q'], q))
+    # moved to another module under the same name (`fn compute_normal` from stroke.rs to geom.rs): same last path
+    # segment, same signature and kind, the audited path missing, the new path unknown, one candidate
+    taken = set(n for n, o in pairs)
+    for q in missing:
+        if any(o == q for n, o in pairs):
+            continue
+        k = known[q]
+        if k.get('impl_self'):
+            continue
+        name = q.rsplit('::', 1)[1]
+        cands = [b for b in raw['bodies'] if b['q'] not in known and b['q'] not in taken and '::{closure' not in b['q'] and not b.get('impl_self')
+                 and b['q'].rsplit('::', 1)[1] == name and b.get('sig') == k.get('sig') and b.get('kind') == k.get('kind')]
+        if len(cands) == 1:
+            pairs.append((cands[0]['q'], q))
+            taken.add(cands[0]['q'])
+    # free function <-> associated function / method of a local type (`fn blend_row::<T>(..)` -> `BlendRow::row::<T>(..)`,
+    # `compute_curve_steps(&Edge)` -> `Edge::curve_shift(&self)`): the same signature, unique on both sides
+    for q in missing:
+        if any(o == q for n, o in pairs):
+            continue
+        k = known[q]
+        sig = k.get('sig')
+        if not sig or len([m2 for m2 in missing if known[m2].get('sig') == sig]) != 1:
+            continue
+        # a generic parameter that becomes the Self type of a provided trait method: `<T as Tr>::X` ~ `<Self as Tr>::X`
+        nsig = lambda x: (x or '').replace('<Self as ', '<T as ')
+        cands = [b for b in raw['bodies'] if b['q'] not in known and b['q'] not in taken and '::{closure' not in b['q'] and nsig(b.get('sig')) == nsig(sig)
+                 and not b.get('impl_trait')]
+        if len(cands) == 1:
+            pairs.append((cands[0]['q'], q))
+            taken.add(cands[0]['q'])
     if not pairs:
         return raw, []
     text = json.dumps(raw)
@@ -277,3 +308,279 @@ def _inline_at(b, bi, callee):
                              'ty': t.get('dest_ty', ''), 'sp': nb['t'].get('sp') or sp})
             nb['t'] = {'k': 'goto', 't': cont, 'sp': nb['t'].get('sp') or sp} if cont is not None else {'k': 'unreachable', 'sp': sp}
         b['blocks'].append(nb)
+
+
+def dissolve_new_structs(raw, known_adts):
+    """A struct that the audited tree does not have and that only bundles values (`struct SubpathStart { point, normal }`
+    for the tuple `(Point, Vector)`, `struct FlattenCursor { cur, start }` for two locals) is read as the tuple of its
+    fields: aggregates become tuple aggregates, field projections become positional, and the type name is replaced by
+    the tuple type in every type string.  Only structs without methods left after inlining, without generics and not
+    public are dissolved.  Returns descriptions."""
+    import re
+    if known_adts is None:
+        return []
+    done = []
+    bodies_q = [b['q'] for b in raw['bodies']]
+    for a in list(raw['adts']):
+        q = a['q']
+        if q in known_adts or a.get('kind') != 'Struct' or len(a.get('variants', [])) != 1:
+            continue
+        fields = a['variants'][0]['fields']
+        if not fields or any(f['name'].isdigit() for f in fields):
+            continue
+        DERIVED = ('std::clone::Clone>::clone', 'std::fmt::Debug>::fmt', 'std::cmp::PartialEq>::eq', 'std::default::Default>::default')
+        own = [bq for bq in bodies_q if bq.startswith(q + '::') or ('<' + q + ' as ') in bq or ('<' + q.replace('raqote::', '', 1) + ' as ') in bq]
+        if any(not bq.endswith(DERIVED) for bq in own):
+            continue          # it has behaviour of its own (methods, hand-written trait impls)
+        short = q.replace('raqote::', '', 1)
+        idx = {f['name']: i for i, f in enumerate(fields)}
+        tup = '(' + ', '.join(f['ty'] for f in fields) + (',)' if len(fields) == 1 else ')')
+        pat = re.compile(r'(?<![\w:])' + re.escape(short) + r'(?!::|\w)')
+
+        def walk(x):
+            if isinstance(x, list):
+                for i, y in enumerate(x):
+                    if isinstance(y, str):
+                        x[i] = pat.sub(tup, y)
+                    else:
+                        walk(y)
+            elif isinstance(x, dict):
+                if x.get('k') == 'field' and x.get('adt') == q and x.get('n') in idx:
+                    x['n'] = str(idx[x['n']])
+                    x['adt'] = '(tuple)'
+                    x.pop('v', None)
+                if x.get('k') == 'agg' and x.get('ak') == 'adt' and x.get('adt') == q:
+                    x['ak'] = 'tuple'
+                    for kk in ('adt', 'v', 'fields', 'substs'):
+                        x.pop(kk, None)
+                for kk, y in list(x.items()):
+                    if isinstance(y, str):
+                        if kk not in ('q', 'name', 'def', 'res', 'f'):
+                            x[kk] = pat.sub(tup, y)
+                    else:
+                        walk(y)
+        for b in raw['bodies']:
+            walk(b)
+        raw['adts'] = [x for x in raw['adts'] if x['q'] != q]
+        raw['bodies'] = [b for b in raw['bodies'] if b['q'] not in own]
+        done.append('struct %s read as the tuple %s' % (q, tup))
+    return done
+
+
+# ------------------------------------------------------------------ internal iteration -> loops
+def _uses_local(x, n, skip=None):
+    """does the JSON fragment mention local n as (the base of) a place or an index?"""
+    if x is skip:
+        return False
+    if isinstance(x, list):
+        return any(_uses_local(y, n, skip) for y in x)
+    if isinstance(x, dict):
+        if _is_span(x):
+            return False
+        if x.get('l') == n and ('pr' in x or x.get('k') == 'index'):
+            return True
+        return any(_uses_local(v, n, skip) for v in x.values())
+    return False
+
+
+def _places(x, out):
+    if isinstance(x, list):
+        for y in x:
+            _places(y, out)
+    elif isinstance(x, dict):
+        if _is_span(x):
+            return
+        if 'l' in x and 'pr' in x and isinstance(x['pr'], list):
+            out.append(x)
+        for v in x.values():
+            _places(v, out)
+
+
+def _single_def(b, n):
+    """the only statement assigning the whole local n (call destinations count as definitions): (block, index, stmt) or None"""
+    hits = []
+    for bi, blk in enumerate(b['blocks']):
+        for si, st in enumerate(blk['st']):
+            if st.get('k') == 'assign' and st['p']['l'] == n and not st['p']['pr']:
+                hits.append((bi, si, st))
+        t = blk['t']
+        if t['k'] == 'call' and t.get('dest') and t['dest']['l'] == n:
+            hits.append((bi, None, None))
+    return hits[0] if len(hits) == 1 and hits[0][2] is not None else None
+
+
+def normalise_internal_iteration(raw):
+    """`iter.for_each(|x| body)` and `iter.fold(init, |acc, x| body)` with a closure literal of the same function are
+    rewritten into the loop they stand for — `loop { match iter.next() { None => break, Some(x) => body } }` with the
+    closure body inlined and its captures resolved to the captured variables — so that every rule sees one spelling of
+    iteration.  The audited tree contains neither.  Returns descriptions of what was rewritten."""
+    bodies = {b['q']: b for b in raw['bodies']}
+    done = []
+    used = set()
+    for b in raw['bodies']:
+        bi = 0
+        while bi < len(b['blocks']):
+            blk = b['blocks'][bi]
+            t = blk['t']
+            if t['k'] == 'call' and not blk.get('cleanup') and t.get('t') is not None:
+                fn = (t.get('f') or {}).get('fn') or {}
+                kind = {'std::iter::Iterator::for_each': 'for_each', 'std::iter::Iterator::fold': 'fold'}.get(fn.get('def'))
+                if kind:
+                    cq = _expand_internal(b, bi, kind, bodies)
+                    if cq:
+                        done.append('%s in %s written as a loop (closure %s inlined)' % (kind, b['q'], cq.rsplit('::', 1)[-1]))
+                        used.add(cq)
+            bi += 1
+    if used:
+        still = set()
+        for b in raw['bodies']:
+            s = json.dumps(b['blocks'])
+            for h in used:
+                if '"def": "%s"' % h in s:
+                    still.add(h)
+        raw['bodies'] = [b for b in raw['bodies'] if not (b['q'] in used and b['q'] not in still)]
+    return done
+
+
+def _expand_internal(b, bi, kind, bodies):
+    blk = b['blocks'][bi]
+    t = blk['t']
+    args = t['args']
+    want = 2 if kind == 'for_each' else 3
+    if len(args) != want:
+        return None
+    clo_op = args[-1]
+    if clo_op.get('k') not in ('move', 'copy') or clo_op['p']['pr']:
+        return None
+    cl = clo_op['p']['l']
+    d = _single_def(b, cl)
+    if d is None or d[2]['rv'].get('k') != 'agg' or d[2]['rv'].get('ak') != 'closure':
+        return None
+    cagg = d[2]['rv']
+    cq = cagg.get('def')
+    cb = bodies.get(cq)
+    if cb is None or cb.get('argc') != want:
+        return None
+    sp = t.get('sp')
+    env_ty = cb['locals'][1]['ty']
+    by_ref = env_ty.startswith('&')
+    item_ty = cb['locals'][want]['ty']
+    it_ty = (t.get('arg_tys') or ['?'])[0]
+    L = len(b['locals'])
+    names = ['it', 'ref', 'opt', 'd', 'item', 'cref', 'unit', 'acc']
+    tys = [it_ty, '&mut ' + it_ty, 'std::option::Option<%s>' % item_ty, 'isize', item_ty, env_ty, '()', t.get('dest_ty', '?')]
+    loc = {}
+    for n, ty in zip(names, tys):
+        loc[n] = len(b['locals'])
+        b['locals'].append({'ty': ty})
+    pl = lambda n, pr=None: {'l': loc[n], 'pr': pr or []}
+    N1 = len(b['blocks'])
+    N2, N3, N4, N5 = N1 + 1, N1 + 2, N1 + 3, N1 + 4
+    cont = t['t']
+    dest = t['dest']
+    # B: move the iterator (and the accumulator) into loop state
+    blk['st'].append({'k': 'assign', 'p': pl('it'), 'rv': {'k': 'use', 'o': copy.deepcopy(args[0])}, 'ty': it_ty, 'sp': sp})
+    if kind == 'fold':
+        blk['st'].append({'k': 'assign', 'p': pl('acc'), 'rv': {'k': 'use', 'o': copy.deepcopy(args[1])}, 'ty': tys[7], 'sp': sp})
+    blk['t'] = {'k': 'goto', 't': N1, 'sp': sp}
+    nextfn = {'k': 'const', 'ty': 'fn(&mut %s) -> Option<%s> {<%s as std::iter::Iterator>::next}' % (it_ty, item_ty, it_ty),
+              'fn': {'def': 'std::iter::Iterator::next', 'path': 'std::iter::Iterator::next', 'name': 'next', 'local': False, 'substs': [it_ty],
+                     'subst_heads': [it_ty.split('<')[0]], 'trait': 'std::iter::Iterator', 'self': it_ty, 'self_head': it_ty.split('<')[0], 'res_kind': 'item'}}
+    b['blocks'].append({'st': [{'k': 'assign', 'p': pl('ref'), 'rv': {'k': 'ref', 'mut': True, 'p': pl('it')}, 'ty': tys[1], 'sp': sp}],
+                        't': {'k': 'call', 'f': nextfn, 'args': [{'k': 'move', 'p': pl('ref')}], 'arg_tys': [tys[1]], 'dest_ty': tys[2], 'dest': pl('opt'), 't': N2, 'sp': sp}})
+    b['blocks'].append({'st': [{'k': 'assign', 'p': pl('d'), 'rv': {'k': 'discr', 'adt': 'std::option::Option', 'p': pl('opt')}, 'ty': 'isize', 'sp': sp}],
+                        't': {'k': 'switch', 'o': {'k': 'move', 'p': pl('d')}, 'ty': 'isize', 'targets': [['0', N4], ['1', N3]], 'otherwise': N5, 'sp': sp}})
+    some0 = [{'k': 'downcast', 'v': 'Some', 'adt': 'std::option::Option'}, {'k': 'field', 'i': 0, 'n': '0', 'adt': 'std::option::Option', 'v': 'Some'}]
+    st3 = [{'k': 'assign', 'p': pl('item'), 'rv': {'k': 'use', 'o': {'k': 'move', 'p': pl('opt', some0)}}, 'ty': item_ty, 'sp': sp}]
+    if by_ref:
+        st3.append({'k': 'assign', 'p': pl('cref'), 'rv': {'k': 'ref', 'mut': env_ty.startswith('&mut'), 'p': {'l': cl, 'pr': []}}, 'ty': env_ty, 'sp': sp})
+    else:
+        st3.append({'k': 'assign', 'p': pl('cref'), 'rv': {'k': 'use', 'o': {'k': 'move', 'p': {'l': cl, 'pr': []}}}, 'ty': env_ty, 'sp': sp})
+    cargs = [{'k': 'move', 'p': pl('cref')}] + ([{'k': 'move', 'p': pl('acc')}] if kind == 'fold' else []) + [{'k': 'move', 'p': pl('item')}]
+    cdest = pl('acc') if kind == 'fold' else pl('unit')
+    b['blocks'].append({'st': st3, 't': {'k': 'call', 'f': {'k': 'const', 'ty': 'closure', 'fn': {'def': cq, 'path': cq, 'name': 'closure', 'local': True}},
+                                         'args': cargs, 'arg_tys': [env_ty] + ([tys[7]] if kind == 'fold' else []) + [item_ty],
+                                         'dest_ty': tys[7] if kind == 'fold' else '()', 'dest': cdest, 't': N1, 'sp': sp}})
+    fin = {'k': 'use', 'o': {'k': 'move', 'p': pl('acc')}} if kind == 'fold' else {'k': 'use', 'o': {'k': 'const', 'ty': '()', 'text': 'Val(ZeroSized, ())'}}
+    b['blocks'].append({'st': [{'k': 'assign', 'p': copy.deepcopy(dest), 'rv': fin, 'ty': t.get('dest_ty', '()'), 'sp': sp}], 't': {'k': 'goto', 't': cont, 'sp': sp}})
+    b['blocks'].append({'st': [], 't': {'k': 'unreachable', 'sp': sp}})
+    # inline the closure body at N3 and resolve its captures
+    loff = len(b['locals'])
+    boff = len(b['blocks'])
+    _inline_at(b, N3, cb)
+    env = loff + 1
+    ops = cagg.get('ops') or []
+    new_blocks = b['blocks'][boff:]
+    places = []
+    _places(new_blocks, places)
+    for p in places:
+        if p['l'] != env:
+            continue
+        pr = p['pr']
+        k0 = 1 if by_ref else 0
+        if by_ref and not (pr and pr[0].get('k') == 'deref'):
+            continue
+        if len(pr) <= k0 or pr[k0].get('k') != 'field' or not str(pr[k0].get('n', '')).startswith('upvar'):
+            continue
+        ui = pr[k0].get('i')
+        if ui is None or ui >= len(ops):
+            continue
+        op = ops[ui]
+        if op.get('k') not in ('move', 'copy') or op['p']['pr']:
+            continue
+        u = op['p']['l']
+        rest = pr[k0 + 1:]
+        ud = _single_def(b, u)
+        if ud is not None and ud[2]['rv'].get('k') == 'ref' and rest and rest[0].get('k') == 'deref':
+            # the capture is `&x` / `&mut x`: *capture is x itself
+            tgt = ud[2]['rv']['p']
+            p['l'] = tgt['l']
+            p['pr'] = copy.deepcopy(tgt['pr']) + rest[1:]
+        else:
+            p['l'] = u
+            p['pr'] = rest
+    # dead plumbing: the environment parameter, the reference to the closure, the closure value and capture references
+    # that nothing reads any more are removed, so that captured variables are ordinary locals again
+    def drop_defs(n):
+        for blk2 in b['blocks']:
+            blk2['st'] = [st for st in blk2['st'] if not (st.get('k') == 'assign' and st['p']['l'] == n and not st['p']['pr'])]
+    def only_defined(n):
+        for blk2 in b['blocks']:
+            for st in blk2['st']:
+                if st.get('k') == 'assign' and st['p']['l'] == n and not st['p']['pr']:
+                    if _uses_local(st['rv'], n):
+                        return False
+                    continue
+                if st.get('k') in ('storage_live', 'storage_dead', 'live', 'dead') :
+                    continue
+                if _uses_local(st, n):
+                    return False
+            if _uses_local(blk2['t'], n):
+                return False
+        return True
+    cap_locals = [op['p']['l'] for op in ops if op.get('k') in ('move', 'copy') and not op['p']['pr']]
+    # temporaries that merely copy a capture reference (`_t = copy capture; (*_t) = ..`): *_t is the captured variable
+    temps = []
+    for u in cap_locals:
+        ud = _single_def(b, u)
+        if ud is None or ud[2]['rv'].get('k') != 'ref':
+            continue
+        tgt = ud[2]['rv']['p']
+        for nb in new_blocks:
+            for st in nb['st']:
+                if st.get('k') == 'assign' and not st['p']['pr'] and st['rv'].get('k') == 'use' and st['rv']['o'].get('k') in ('copy', 'move') \
+                        and st['rv']['o']['p']['l'] == u and not st['rv']['o']['p']['pr']:
+                    tl = st['p']['l']
+                    if _single_def(b, tl) is None:
+                        continue
+                    allp = []
+                    _places(b['blocks'], allp)
+                    for p in allp:
+                        if p['l'] == tl and p['pr'] and p['pr'][0].get('k') == 'deref':
+                            p['l'] = tgt['l']
+                            p['pr'] = copy.deepcopy(tgt['pr']) + p['pr'][1:]
+                    temps.append(tl)
+    for n in temps + [env, loc['cref'], cl] + cap_locals:
+        if only_defined(n):
+            drop_defs(n)
+    return cq
